@@ -244,4 +244,13 @@ macro "inv_grind" : tactic => `(tactic|
 
 macro "inv_auto" : tactic => `(tactic| (inv_simp; inv_grind))
 
+/-- all fields of `Inv` at once; the goals the automation cannot close stay -/
+macro "inv_cases" : tactic => `(tactic| (constructor <;> first | (inv_auto; done) | skip))
+
+/-- destructure an invariant into its named fields -/
+macro "inv_obtain" h:ident : tactic => `(tactic|
+  obtain ⟨kindC, kindF, lockOk, frWait, freshOk, freshVer, freshVerT, freshNode, wFreeTaken, preOk, postOk, ownOk, rsmTaken,
+    freeTaken, pubNode, waiting, parked, listOk, scanOk, prevOk, oScanOk, oNoneOk, aUnlockOk, aNextOk, aResumeOk, aFreeOk,
+    noRead, cTakeOk, allocUsed, noBad⟩ := $h)
+
 end Babylon.Coro
